@@ -259,7 +259,7 @@ def solver_case(draw):
             "b": draw(vec(n)), "x0": draw(vec(n, -2.0, 2.0)), "cubic": draw(st.sampled_from([0.0, 0.0, 0.2])),
             "fault_at": draw(st.one_of(st.none(), st.integers(1, 30))),
             "fault": draw(st.sampled_from(["nan", "+inf", "-inf", "ValueError", "numpy.LinAlgError", "mici.LinAlgError",
-                                           "nan-one-entry", "inf-one-entry"])),
+                                           "nan-one-entry", "inf-one-entry", "huge", "huge-one-entry", "-huge"])),
             "tol": draw(st.sampled_from([1e-9, 1e-6, 1e-12])), "max_iters": draw(st.sampled_from([100, 100, 5, 1])),
             "divergence_tol": draw(st.sampled_from([1e10, 1e3]))}
 
@@ -297,6 +297,11 @@ def run_solver(res, case):
                 return out + math.inf
             if kind == "-inf":
                 return out - math.inf
+            if kind in ("huge", "-huge"):          # finite, e.g. exp() of a large argument just short of overflow
+                return out + (1e200 if kind == "huge" else -1e200)
+            if kind == "huge-one-entry":
+                out[0] = 1e150
+                return out
             out[0] = math.inf if kind == "inf-one-entry" else math.nan
             return out
         return Amat @ x + b + case["cubic"] * np.sin(x)
@@ -349,10 +354,8 @@ def run_solver(res, case):
         if len(calls) < 2:
             res.fail("C12:solver[steffensen]:returned-without-evaluating", "returned after < 2 evaluations")
             return
-        xa = calls[-2]
-        if not np.max(np.abs(x - xa)) < tol:
-            res.fail("C12:solver[steffensen]:returned-unconverged", f"returned with last update "
-                     f"{np.max(np.abs(x - xa)):.3e} >= tolerance {tol:.1e}")
+        # (no check of the solver's own stopping quantity here: which of its evaluations the last update refers to is an
+        # implementation detail; convergence is judged above by the fault-free residual at the returned point)
 
 
 def run_chain_case(res, case):
